@@ -51,5 +51,14 @@ Record hroute := mk_hroute {
   rt_internal : option hinternal   (* the internal API method the handler forwards to *)
 }.
 
+(* warp's own rejections that handle_rejection can look for with err.find::<warp::reject::K>() *)
+Inductive hwarpkind := WMethodNotAllowed | WLengthRequired | WPayloadTooLarge | WUnsupportedMediaType.
+Definition hwarpkind_eqb (a b : hwarpkind) : bool :=
+  match a, b with
+  | WMethodNotAllowed, WMethodNotAllowed | WLengthRequired, WLengthRequired | WPayloadTooLarge, WPayloadTooLarge
+  | WUnsupportedMediaType, WUnsupportedMediaType => true
+  | _, _ => false
+  end.
+
 (* a tonic status code as the HTTP layer gets it back from the internal API *)
 Inductive hgrpc := GOk | GErr (c : Z) | GAbort (c : Z).
